@@ -30,7 +30,7 @@ func (w *World) newExec(pk *Pkg, fn *ssa.Function, fc *FuncContract) *Exec {
 	if fc != nil && fc.Mode == "bv" {
 		mode.BV = true
 	}
-	x := &Exec{w: w, pk: pk, fn: fn, fc: fc, o: &Ops{TermCtx: NewTermCtx(), M: mode},
+	x := &Exec{w: w, pk: pk, fn: fn, fc: fc, topFc: fc, o: &Ops{TermCtx: NewTermCtx(), M: mode},
 		typeIDs: map[string]int{}, typeByID: map[int]types.Type{}, counters: map[string]int{}, params: map[string]SVal{},
 		tparams: tparamMap(fn), trusted: map[string]bool{}, inlined: map[string]bool{}, globals: map[string]Val{},
 		strConst: map[string]StrVal{}, regexUse: map[string]bool{}, callees: map[string]bool{}}
